@@ -2524,6 +2524,10 @@ namespace detail {
                     case json_type::string:
                     {
                         auto sv = arg0.as_string_view();
+                        if (!is_json_number(sv))
+                        {
+                            return context.null_value(); // a string that is not a json-number converts to null
+                        }
                         uint64_t uval{ 0 };
                         auto result1 = jsoncons::to_integer(sv.data(), sv.length(), uval);
                         if (result1)
@@ -2553,6 +2557,38 @@ namespace detail {
                 }
             }
         };
+
+        // json-number = [ "-" ] ( "0" / digit1-9 *DIGIT ) [ "." 1*DIGIT ] [ ( "e" / "E" ) [ "-" / "+" ] 1*DIGIT ]
+        static bool is_json_number(const string_view_type& sv) noexcept
+        {
+            auto is_digit = [](char_type c) { return c >= '0' && c <= '9'; };
+            std::size_t i = 0;
+            const std::size_t n = sv.size();
+            if (i < n && sv[i] == '-') ++i;
+            if (i == n || !is_digit(sv[i])) return false;
+            if (sv[i] == '0') 
+            {
+                ++i;
+            }
+            else
+            {
+                while (i < n && is_digit(sv[i])) ++i;
+            }
+            if (i < n && sv[i] == '.')
+            {
+                ++i;
+                if (i == n || !is_digit(sv[i])) return false;
+                while (i < n && is_digit(sv[i])) ++i;
+            }
+            if (i < n && (sv[i] == 'e' || sv[i] == 'E'))
+            {
+                ++i;
+                if (i < n && (sv[i] == '-' || sv[i] == '+')) ++i;
+                if (i == n || !is_digit(sv[i])) return false;
+                while (i < n && is_digit(sv[i])) ++i;
+            }
+            return i == n;
+        }
 
         class to_string_function final : public function_base<Json>
         {
